@@ -136,6 +136,18 @@ def library_models(reg, opts):
     except (ValueError, OverflowError, OSError) as exc:
         if not isinstance(exc, (ValueError, OverflowError)):
             bad.append('fromtimestamp raised %s' % type(exc).__name__)
+    try:        # the millisecond reading: representable exactly up to 253402300799999 ms
+        datetime.datetime.fromtimestamp(253402300799999 / 1000.0, tz=utc)
+    except (ValueError, OverflowError, OSError):
+        bad.append('253402300799999 ms not representable')
+    for ms in (253402300800000, 10 ** 15, 2 ** 63, 2 ** 64 - 1):
+        try:
+            datetime.datetime.fromtimestamp(ms / 1000.0, tz=utc)
+            bad.append('%d ms accepted' % ms)
+        except (ValueError, OverflowError):
+            pass
+        except OSError:
+            bad.append('%d ms raised OSError' % ms)
     out.append(gres('engine.library-models#A5-time', not bad, 'disagreements: %r' % (bad[:5],)))
 
     # A5 decimal: the one arithmetic shape the decoder uses
